@@ -14,7 +14,7 @@ TABLE = {
                 thorough=[dict(n=40, blocks=40), dict(n=40, blocks=40, seed_off=50), dict(n=30, blocks=30, boundary=True),
                           dict(n=30, blocks=60, maxtx=8, seed_off=70)],
                 need=[("transfer", True), ("staking", True), ("unstaking", True), ("withdraw", True), ("evidence", True)]),
-    "C04": dict(evm=True, directed=["evm_basic", "evm_fail", "evm_mixed", "nonce_replay", "fee_edges", "setdoc_and_accounts"],
+    "C04": dict(evm=True, directed=["evm_basic", "evm_fail", "evm_mixed", "evm_selfdestruct", "transfer_to_created", "nonce_replay", "fee_edges", "setdoc_and_accounts"],
                 quick=[dict(n=8, blocks=20, maxtx=7)],
                 thorough=[dict(n=50, blocks=40, maxtx=8), dict(n=50, blocks=40, maxtx=8, seed_off=31)],
                 need=[("transfer", True), ("transfer", False), ("staking", True)]),
@@ -23,7 +23,7 @@ TABLE = {
                 quick=[dict(n=8, blocks=20, maxtx=7), dict(n=3, blocks=15, boundary=True)],
                 thorough=[dict(n=50, blocks=40, maxtx=8), dict(n=40, blocks=40, maxtx=8, seed_off=11), dict(n=30, blocks=30, boundary=True)],
                 need=[("transfer", False), ("staking", False), ("unstaking", False), ("withdraw", False), ("proposal", False), ("voting", False)]),
-    "C10": dict(directed=["valcount_change", "self_below_min", "validator_churn", "twin_jail", "forced_unbond", "slash_then_unstake", "recreate_in_block", "early_unbond"],
+    "C10": dict(directed=["restart_truncated", "valcount_change", "self_below_min", "validator_churn", "twin_jail", "forced_unbond", "slash_then_unstake", "recreate_in_block", "early_unbond"],
                 quick=[dict(n=8, blocks=30)],
                 thorough=[dict(n=60, blocks=50), dict(n=60, blocks=50, seed_off=13)],
                 need=[("staking", True), ("unstaking", True), ("absent", True)]),
@@ -31,7 +31,7 @@ TABLE = {
                 quick=[dict(n=8, blocks=25)],
                 thorough=[dict(n=60, blocks=50), dict(n=60, blocks=50, seed_off=17)],
                 need=[("staking", True), ("unstaking", True), ("evidence", True)]),
-    "C12": dict(directed=["checktx_not_delivered", "genesis_twins_unbond", "twin_jail", "forced_unbond", "many_unbonding", "slash_then_unstake"],
+    "C12": dict(directed=["unbond_period_shortened", "checktx_not_delivered", "genesis_twins_unbond", "twin_jail", "forced_unbond", "many_unbonding", "slash_then_unstake"],
                 quick=[dict(n=8, blocks=30)],
                 thorough=[dict(n=60, blocks=50), dict(n=60, blocks=50, seed_off=19)],
                 need=[("unstaking", True), ("unstaking", False)]),
@@ -43,11 +43,11 @@ TABLE = {
                 quick=[dict(n=8, blocks=30)],
                 thorough=[dict(n=60, blocks=50), dict(n=60, blocks=50, seed_off=29)],
                 need=[("evidence", True), ("absent", True)]),
-    "C15": dict(directed=["vote_window_edges", "threshold_exact", "two_proposals_one_block", "price_change", "many_unbonding"],
+    "C15": dict(directed=["vote_window_edges", "threshold_exact", "majority_lost", "two_proposals_one_block", "price_change", "many_unbonding"],
                 quick=[dict(n=8, blocks=30)],
                 thorough=[dict(n=60, blocks=50), dict(n=60, blocks=60, seed_off=37)],
                 need=[("proposal", True), ("proposal", False), ("voting", True), ("voting", False)]),
-    "C16": dict(evm=True, directed=["evm_basic", "evm_value", "evm_fail", "fee_edges", "price_change", "no_proposer_block", "two_proposals_one_block", "same_block_withdraw", "many_unbonding"],
+    "C16": dict(evm=True, directed=["evm_basic", "evm_value", "evm_fail", "evm_selfdestruct", "transfer_to_created", "fee_edges", "price_change", "no_proposer_block", "two_proposals_one_block", "same_block_withdraw", "many_unbonding"],
                 quick=[dict(n=8, blocks=25, maxtx=7)],
                 thorough=[dict(n=60, blocks=40, maxtx=8), dict(n=60, blocks=40, maxtx=8, seed_off=41)],
                 need=[("transfer", True), ("transfer", False), ("withdraw", True)]),
